@@ -19,3 +19,28 @@ Theorem C13_retain_force_always_removes : forall st st',
   kapply st KForceRemove = Some st' -> st' = None.
 Proof. exact kapply_force_remove. Qed.
 Print Assumptions C13_retain_force_always_removes.
+
+(* ---- the unbounded theorem over the list-bin protocol model (Model/BinProto.v) ----
+   retain's removal of an entry its predicate rejected is the model operation `OCondRemove k obs`
+   (replace_node with the observed value: lock the bin, re-validate, walk, load the value, unlink
+   only if it is still `obs`); retain_force's is `ORemove k`.  Its history entry is
+   `KCondRemove obs`, whose specification is the compare-and-remove above.  For every hash
+   function, table size, program - any mix of get / insert / try_insert / remove /
+   compute_if_present / conditional removals, any number of threads - and every schedule, the
+   history of every key is linearizable with the final lookup as final state: a conditional removal
+   never removes a value other than the one observed, whatever replaces it concurrently. *)
+From Flurry Require Import Model.BinProto Proofs.BinProtoProofs.
+
+Theorem C13_binproto_linearizable_with_retain_removals : forall khash nbins progs sched k,
+  (0 < nbins)%nat ->
+  let c := run khash nbins (init nbins progs) sched in
+  all_done c = true ->
+  linearizable None (key_history c k) (Some (lookup khash nbins c k)).
+Proof. exact binproto_linearizable. Qed.
+Print Assumptions C13_binproto_linearizable_with_retain_removals.
+
+(* the operation is in the model's vocabulary and maps to the conditional specification *)
+Theorem C13_cond_remove_is_an_operation : forall k obs r,
+  op_key (OCondRemove k obs) = k /\ kop_of (OCondRemove k obs) r = KCondRemove obs.
+Proof. intros k obs r. split; reflexivity. Qed.
+Print Assumptions C13_cond_remove_is_an_operation.
